@@ -715,6 +715,33 @@ func c39prepare(ops []string) {
 		if kind == "file" {
 			target = filepath.Join(dir, files[0].name+".gomacro")
 		}
+		// regeneration: the output file may exist already (-f).  One third of the programs is written over a longer junk
+		// FILE.go, one third is preprocessed twice into the same directory, the first time from a LONGER source
+		// (extra declarations at the end): whatever survives of the old output shows up in the oracles below
+		switch seed % 3 {
+		case 1:
+			for _, f := range files {
+				var junk strings.Builder
+				junk.WriteString("package junk\n\n")
+				for i := 0; junk.Len() < 3*len(f.source())+4096; i++ {
+					fmt.Fprintf(&junk, "var junk%d = %d // left over from an older, longer output file\n", i, i)
+				}
+				os.WriteFile(filepath.Join(dir, f.name+".go"), []byte(junk.String()), 0o644)
+			}
+			res.tags = append(res.tags, "regen-over-junk")
+		case 2:
+			var longer []*c39file
+			for _, f := range files {
+				l := *f
+				l.chunks = append([][]c39form{}, f.chunks...)
+				for i := 0; i < 12; i++ {
+					l.chunks = append(l.chunks, []c39form{{desc: "V:x", src: fmt.Sprintf("var regenExtra%d = []string{\"only in the first, longer version of the source\", \"%d\"}", i, i)}})
+				}
+				longer = append(longer, &l)
+			}
+			c39preprocess(dir, longer, target, flags)
+			res.tags = append(res.tags, "regen-twice")
+		}
 		printed, err := c39preprocess(dir, files, target, flags)
 		res.nfiles = len(files)
 		opDefect := "" // what is printed belongs to the whole run: a recorded defect family of ANY file of the directory explains it
@@ -908,8 +935,8 @@ func c39buildBatch(batch string, pkgs []string) {
 	env := append(os.Environ(), "GOFLAGS=-mod=mod", "GOPROXY=off", "GOSUMDB=off", "GOTOOLCHAIN=local", "GO111MODULE=on")
 	// 1. which packages compile?  go vet is not needed: `go build ./...` reports per package
 	bad := map[string]bool{}
-	for round := 0; round < 3; round++ {
-		build := exec.Command("go", "build", "-gcflags=-e", "./...")
+	for round := 0; round < 40; round++ { // go build stops scheduling after some failures: repeat until everything left compiles
+		build := exec.Command("go", "build", "./...")
 		build.Dir = batch
 		build.Env = env
 		out, err := build.CombinedOutput()
